@@ -177,6 +177,7 @@ PROPS = {
         "props": ["C09", "C10Code", "C04Code", "C01CodeStack", "C01CodeFull"],
         "streams": [{"test": "TestSrvConc", "names": ["srvconc"], "timeout": 300}, {"test": "TestDbConc", "names": ["dbconc"], "timeout": 300},
                     {"test": "TestReplyConc", "names": ["replyconc"], "timeout": 120},
+                    {"test": "TestSrvBurst", "names": ["srvburst"], "timeout": 120},
                     {"test": "TestReplyConc", "names": ["replyconc-race"], "timeout": 300, "race": True, "env": {"HX_N": "300", "HX_SUFFIX": "-race"}, "env_thorough": {"HX_N": "6000"}},
                     {"test": "TestCfgOptions", "names": ["cfgopts"], "timeout": 300},
                     {"test": "TestSrvConc", "names": ["srvconc-race"], "timeout": 300, "race": True, "env": {"HX_N": "16", "HX_SUFFIX": "-race"},
@@ -255,7 +256,7 @@ PROPS = {
                  "theorems over all event lists; tied to the code by running the real dclient (with the mclient loop) under a virtual clock against a "
                  "scripted server and comparing the complete effect timeline (callbacks, frames, probes, deadlines, libif operations)."
                  " The whole client automaton of lib/client/dclient (Run, the eight state functions, panicReset, ResumeClient, buildNetconfig) as translated from the source on every run, fed a script of the model's events, logs the effect trace of the model automaton crun (C15Code.code_client_trace: a simulation over all fitting scripts), with the deadlines of runStateBound and ResumeClient and the configuration of buildNetconfig equal to the model's.",
-        "props": ["C15", "C15Code"],
+        "props": ["C15", "C15Code", "C08Code"],
         "streams": [{"test": "TestCliAuto", "names": ["cliauto"], "timeout": 300}, {"test": "TestMclient", "names": ["mclient"], "timeout": 300},
                     {"test": "TestCliSan", "names": ["clisan"], "timeout": 300}],
         "rule": "scripts of 6-20 decisions: at each exchange {valid reply, NAK, invalid replies then silence, silence, link-up}, at each ARP probe {no answer, "
